@@ -56,6 +56,8 @@ type Finding struct {
 	Replay  string // path of replay file
 	Known   string // matched known-finding id
 	Status  string // confirmed | unconfirmed | spurious
+	UFDep   bool       // path condition mentions uninterpreted functions
+	Alts    []*Finding `json:"-"`
 }
 
 type OblStat struct {
@@ -102,6 +104,10 @@ type HarnessRun struct {
 	snap      *Exec
 	stubFns   map[string]*ssa.Function
 	snapTried bool
+	startWit  map[string]*big.Int
+	lastFull  bool
+	leafCache map[int]map[string]bool
+	noSlice   bool
 	completed int
 	samples   []string
 	log       []string
@@ -160,7 +166,8 @@ func (r *HarnessRun) solver(name string) *Solver {
 
 // query: is (pc ∧ extra) satisfiable?
 func (r *HarnessRun) query(extra []*Term, wantModel bool, purpose string) SolveResult {
-	asserts := append(append([]*Term{}, r.pc...), extra...)
+	asserts := r.slice(extra)
+	r.lastFull = len(asserts) == len(r.pc)+len(extra)
 	// trivial cases
 	for _, a := range asserts {
 		if a.isFalse() {
@@ -277,6 +284,34 @@ func (r *HarnessRun) evalWitness(c *Term) (val bool, ok bool) {
 	return v.Sign() != 0, true
 }
 
+// fullModel turns the (possibly sliced) model of a sat query into a witness of the whole
+// path condition: symbols outside the slice keep their values from the previous witness.
+func (r *HarnessRun) fullModel(res SolveResult, wasFull bool) map[string]*big.Int {
+	if res.Status != "sat" || res.Model == nil {
+		return nil
+	}
+	if wasFull {
+		return res.Model
+	}
+	if r.witness == nil {
+		return nil
+	}
+	nw := make(map[string]*big.Int, len(r.witness)+len(res.Model))
+	for k, v := range r.witness {
+		nw[k] = v
+	}
+	for k, v := range res.Model {
+		nw[k] = v
+	}
+	return nw
+}
+
+func (r *HarnessRun) replayed() {
+	if r.pos == len(r.prefix) {
+		r.witness = r.startWit
+	}
+}
+
 // branch decides a symbolic If; returns true for the then-successor.
 func (r *HarnessRun) branch(e *Exec, c *Term) bool {
 	if r.inInit {
@@ -286,13 +321,13 @@ func (r *HarnessRun) branch(e *Exec, c *Term) bool {
 		d := r.prefix[r.pos]
 		r.pos++
 		r.decisions = append(r.decisions, d)
-		r.witness = nil
 		if d == 0 {
 			r.pc = append(r.pc, c)
-			return true
+		} else {
+			r.pc = append(r.pc, r.b.BNot(c))
 		}
-		r.pc = append(r.pc, r.b.BNot(c))
-		return false
+		r.replayed()
+		return d == 0
 	}
 	nc := r.b.BNot(c)
 	wv, wok := r.evalWitness(c)
@@ -303,9 +338,7 @@ func (r *HarnessRun) branch(e *Exec, c *Term) bool {
 	} else {
 		res := r.query([]*Term{c}, true, "branch")
 		feasT = res.Status != "unsat"
-		if res.Status == "sat" {
-			modelT = res.Model
-		}
+		modelT = r.fullModel(res, r.lastFull)
 	}
 	if wok && !wv {
 		feasF, modelF = true, r.witness
@@ -315,9 +348,7 @@ func (r *HarnessRun) branch(e *Exec, c *Term) bool {
 	} else {
 		res := r.query([]*Term{nc}, true, "branch")
 		feasF = res.Status != "unsat"
-		if res.Status == "sat" {
-			modelF = res.Model
-		}
+		modelF = r.fullModel(res, r.lastFull)
 	}
 	if !feasT && !feasF {
 		e.throw("infeasible", "both branches infeasible")
@@ -325,7 +356,7 @@ func (r *HarnessRun) branch(e *Exec, c *Term) bool {
 	if feasT {
 		if feasF {
 			alt := append(append([]int{}, r.decisions...), 1)
-			r.q.push(alt)
+			r.q.push(alt, modelF)
 		}
 		r.decisions = append(r.decisions, 0)
 		r.pos++
@@ -353,11 +384,12 @@ func (r *HarnessRun) choose(e *Exec, vals []int) int {
 		d := r.prefix[r.pos]
 		r.pos++
 		r.decisions = append(r.decisions, d)
+		r.replayed()
 		return d
 	}
 	for _, v := range vals[1:] {
 		alt := append(append([]int{}, r.decisions...), v)
-		r.q.push(alt)
+		r.q.push(alt, r.witness)
 	}
 	r.decisions = append(r.decisions, vals[0])
 	r.pos++
@@ -374,26 +406,43 @@ func (r *HarnessRun) concretize(e *Exec, t *Term, what string) int {
 		r.pos++
 		r.decisions = append(r.decisions, d)
 		r.pc = append(r.pc, eqv(d))
-		r.witness = nil
+		r.replayed()
 		return d
 	}
 	r.stats.Concretized++
 	var vals []int
+	wits := map[int]map[string]*big.Int{}
 	var block []*Term
 	for {
-		res := r.query(block, true, "concretize "+what)
+		var res SolveResult
+		if len(block) == 0 {
+			// need t's symbols in the slice: assert a tautology mentioning t is simplified away,
+			// so query the full path condition instead
+			save := r.noSlice
+			r.noSlice = true
+			res = r.query(nil, true, "concretize "+what)
+			r.noSlice = save
+		} else {
+			res = r.query(block, true, "concretize "+what)
+		}
 		if res.Status == "unsat" {
 			break
 		}
 		if res.Status != "sat" {
 			e.throw("limit", "cannot enumerate values of symbolic %s (%s)", what, res.Status)
 		}
-		v := r.b.Eval(t, res.Model, map[int]*big.Int{})
+		fm := r.fullModel(res, r.lastFull)
+		m := res.Model
+		if fm != nil {
+			m = fm
+		}
+		v := r.b.Eval(t, m, map[int]*big.Int{})
 		sv := signedVal(int(t.S), v)
 		if !sv.IsInt64() {
 			e.throw("limit", "symbolic %s has huge value", what)
 		}
 		vals = append(vals, int(sv.Int64()))
+		wits[int(sv.Int64())] = fm
 		block = append(block, r.b.BNot(eqv(int(sv.Int64()))))
 		if len(vals) > r.opts.MaxConc {
 			e.throw("limit", "symbolic %s has more than %d feasible values; add an assumption bounding it", what, r.opts.MaxConc)
@@ -405,12 +454,12 @@ func (r *HarnessRun) concretize(e *Exec, t *Term, what string) int {
 	sort.Ints(vals)
 	for _, v := range vals[1:] {
 		alt := append(append([]int{}, r.decisions...), v)
-		r.q.push(alt)
+		r.q.push(alt, wits[v])
 	}
 	r.decisions = append(r.decisions, vals[0])
 	r.pos++
 	r.pc = append(r.pc, eqv(vals[0]))
-	r.witness = nil
+	r.witness = wits[vals[0]]
 	return vals[0]
 }
 
@@ -424,10 +473,17 @@ func (r *HarnessRun) assume(e *Exec, c *Term, desc string) {
 	if c.isFalse() {
 		e.throw("infeasible", "assumption false")
 	}
-	r.pc = append(r.pc, c)
-	if v, ok := r.evalWitness(c); !ok || !v {
-		r.witness = nil
+	if v, ok := r.evalWitness(c); ok && v {
+		r.pc = append(r.pc, c)
+		return
 	}
+	res := r.query([]*Term{c}, true, "assume")
+	if res.Status == "unsat" {
+		e.throw("infeasible", "assumption unsatisfiable")
+	}
+	w := r.fullModel(res, r.lastFull)
+	r.pc = append(r.pc, c)
+	r.witness = w
 }
 
 func (r *HarnessRun) oblStat(kind, label, pos string) *OblStat {
@@ -453,16 +509,42 @@ func modelStrings(m map[string]*big.Int) map[string]string {
 
 func (r *HarnessRun) addFinding(kind, label, pos string, model map[string]*big.Int) {
 	key := kind + "|" + label + "|" + pos
-	if r.seenFind[key] {
-		return
-	}
-	r.seenFind[key] = true
 	lens := map[string]int{}
 	for k, v := range r.lens {
 		lens[k] = v
 	}
-	r.findings = append(r.findings, &Finding{Kind: kind, Label: label, Pos: pos, Model: modelStrings(model), Lens: lens,
-		Path: append([]int{}, r.decisions...), Harness: r.Name})
+	ufDep := false
+	for _, c := range r.pc {
+		for k := range r.leaves(c) {
+			if strings.HasPrefix(k, "uf:") {
+				ufDep = true
+			}
+		}
+	}
+	nf := &Finding{Kind: kind, Label: label, Pos: pos, Model: modelStrings(model), Lens: lens,
+		Path: append([]int{}, r.decisions...), Harness: r.Name, UFDep: ufDep}
+	if r.seenFind[key] {
+		for _, f := range r.findings {
+			if f.Kind == kind && f.Label == label && f.Pos == pos {
+				if len(f.Alts) < 8 {
+					if !ufDep && f.UFDep {
+						// prefer a counterexample that does not depend on uninterpreted-function values
+						old := *f
+						old.Alts = nil
+						alts := append(f.Alts, &old)
+						*f = *nf
+						f.Alts = alts
+					} else {
+						f.Alts = append(f.Alts, nf)
+					}
+				}
+				return
+			}
+		}
+		return
+	}
+	r.seenFind[key] = true
+	r.findings = append(r.findings, nf)
 }
 
 // obligation: cond must hold on this path (runtime-panic freedom).
@@ -497,7 +579,21 @@ func (r *HarnessRun) check(e *Exec, kind, label string, cond *Term) {
 			return
 		case "sat":
 			o.Sat++
-			r.addFinding(kind, label, pos, res.Model)
+			m := r.fullModel(res, r.lastFull)
+			if m == nil && res.Detail != "abstract" {
+				// sliced model without a witness for the rest of the path condition: re-solve unsliced
+				save := r.noSlice
+				r.noSlice = true
+				full := r.query([]*Term{nc}, true, kind+"-fullmodel")
+				r.noSlice = save
+				if full.Status == "sat" {
+					m = full.Model
+				}
+			}
+			if m == nil {
+				m = res.Model
+			}
+			r.addFinding(kind, label, pos, m)
 			if res.Detail == "abstract" {
 				r.findings[len(r.findings)-1].Status = "abstract"
 			}
@@ -514,8 +610,9 @@ func (r *HarnessRun) check(e *Exec, kind, label string, cond *Term) {
 		if res.Status == "unsat" {
 			e.throw("stop", "always fails")
 		}
+		w := r.fullModel(res, r.lastFull)
 		r.pc = append(r.pc, cond)
-		r.witness = res.Model
+		r.witness = w
 	}
 }
 
@@ -523,39 +620,44 @@ func (r *HarnessRun) check(e *Exec, kind, label string, cond *Term) {
 type workQueue struct {
 	mu      sync.Mutex
 	cond    *sync.Cond
-	items   [][]int
+	items   []workItem
 	active  int
 	paths   int
 	max     int
 	stopped bool
 }
 
+type workItem struct {
+	prefix []int
+	wit    map[string]*big.Int
+}
+
 func newWorkQueue(max int) *workQueue {
-	q := &workQueue{max: max, items: [][]int{{}}}
+	q := &workQueue{max: max, items: []workItem{{}}}
 	q.cond = sync.NewCond(&q.mu)
 	return q
 }
 
-func (q *workQueue) push(p []int) {
+func (q *workQueue) push(p []int, wit map[string]*big.Int) {
 	q.mu.Lock()
-	q.items = append(q.items, p)
+	q.items = append(q.items, workItem{p, wit})
 	q.mu.Unlock()
 	q.cond.Signal()
 }
 
 // pop blocks until an item is available or all workers are idle with an empty queue.
-func (q *workQueue) pop() ([]int, bool) {
+func (q *workQueue) pop() (workItem, bool) {
 	q.mu.Lock()
 	defer q.mu.Unlock()
 	for {
 		if q.stopped {
-			return nil, false
+			return workItem{}, false
 		}
 		if len(q.items) > 0 {
 			if q.paths >= q.max {
 				q.stopped = true
 				q.cond.Broadcast()
-				return nil, false
+				return workItem{}, false
 			}
 			p := q.items[len(q.items)-1]
 			q.items = q.items[:len(q.items)-1]
@@ -565,7 +667,7 @@ func (q *workQueue) pop() ([]int, bool) {
 		}
 		if q.active == 0 {
 			q.cond.Broadcast()
-			return nil, false
+			return workItem{}, false
 		}
 		q.cond.Wait()
 	}
@@ -596,10 +698,12 @@ func (r *HarnessRun) runAll(workers int) {
 			defer wg.Done()
 			defer s.closeSolvers()
 			for {
-				prefix, ok := q.pop()
+				item, ok := q.pop()
 				if !ok {
 					return
 				}
+				prefix := item.prefix
+				s.startWit = item.wit
 				func() {
 					defer q.done()
 					defer func() {
@@ -655,6 +759,20 @@ func (r *HarnessRun) runAll(workers int) {
 			if !r.seenFind[key] {
 				r.seenFind[key] = true
 				r.findings = append(r.findings, f)
+			} else {
+				for _, g := range r.findings {
+					if g.Kind == f.Kind && g.Label == f.Label && g.Pos == f.Pos && len(g.Alts) < 12 {
+						if !f.UFDep && g.UFDep {
+							old := *g
+							old.Alts = nil
+							alts := append(append(g.Alts, f.Alts...), &old)
+							*g = *f
+							g.Alts = alts
+						} else {
+							g.Alts = append(append(g.Alts, f), f.Alts...)
+						}
+					}
+				}
 			}
 		}
 		r.incon = append(r.incon, s.incon...)
@@ -890,4 +1008,81 @@ func (r *HarnessRun) makeSnapshot(order []*ssa.Package) {
 	if ok {
 		r.snap = e
 	}
+}
+
+// leaves returns the set of free symbols (variable ids, UF names) of a root term, cached per root.
+func (r *HarnessRun) leaves(t *Term) map[string]bool {
+	if r.leafCache == nil {
+		r.leafCache = map[int]map[string]bool{}
+	}
+	if m, ok := r.leafCache[t.ID]; ok {
+		return m
+	}
+	m := map[string]bool{}
+	seen := map[int]bool{}
+	var walk func(x *Term)
+	walk = func(x *Term) {
+		if seen[x.ID] {
+			return
+		}
+		seen[x.ID] = true
+		switch x.Op {
+		case OVar:
+			m[x.Name] = true
+		case OUF:
+			m["uf:"+x.Name] = true
+		}
+		for _, a := range x.Args {
+			walk(a)
+		}
+	}
+	walk(t)
+	r.leafCache[t.ID] = m
+	return m
+}
+
+// slice returns extra plus the path-condition conjuncts transitively sharing symbols with it
+// (independence slicing; sound because the path condition is kept satisfiable: every
+// conjunct enters it after a feasibility query or as a checked assumption).
+func (r *HarnessRun) slice(extra []*Term) []*Term {
+	if len(extra) == 0 || r.noSlice {
+		return append(append([]*Term{}, r.pc...), extra...)
+	}
+	need := map[string]bool{}
+	for _, t := range extra {
+		for k := range r.leaves(t) {
+			need[k] = true
+		}
+	}
+	used := make([]bool, len(r.pc))
+	for changed := true; changed; {
+		changed = false
+		for i, c := range r.pc {
+			if used[i] {
+				continue
+			}
+			lv := r.leaves(c)
+			hit := false
+			for k := range lv {
+				if need[k] {
+					hit = true
+					break
+				}
+			}
+			if hit {
+				used[i] = true
+				changed = true
+				for k := range lv {
+					need[k] = true
+				}
+			}
+		}
+	}
+	var out []*Term
+	for i, c := range r.pc {
+		if used[i] {
+			out = append(out, c)
+		}
+	}
+	return append(out, extra...)
 }
